@@ -130,6 +130,9 @@ inductive Cur where
   | top
   | pc (w : PcW)
   | pcFailed
+  /-- a point cloud writer after its `finalize` succeeded (`finalized` flag of the crate): `add_point` and
+      `finalize` are refused, the setters have no effect any more -/
+  | pcDone
   | img (w : ImgW)
 
 structure WState where
@@ -188,6 +191,7 @@ def stepW (ft : FloatText) (s : WState) (toks : List String) : Option (WState ×
     | .err _ => some (push "err" { s with tree := none }, rest)
     | .panic _ => some ({ push "panic" s with stop := true }, rest)
   -- ---------- failed point cloud: skip statements
+  | .pcFailed, "PFIN" :: rest => some (push "-" s, rest)
   | .pcFailed, "END" :: rest => some (push "-" { s with cur := .top }, rest)
   | .pcFailed, "ABANDON" :: rest => some (push "-" { s with cur := .top }, rest)
   | .pcFailed, "P" :: k :: rest => do some (push "-" s, rest.drop (← k.toNat?))
@@ -199,7 +203,25 @@ def stepW (ft : FloatText) (s : WState) (toks : List String) : Option (WState ×
   | .pcFailed, "IL" :: rest => some (push "-" s, rest.drop 2)
   | .pcFailed, "CL" :: rest => some (push "-" s, rest.drop 6)
   | .pcFailed, _ :: _ :: rest => some (push "-" s, rest)
+  -- ---------- finalized point cloud writer
+  | .pcDone, "PFIN" :: rest => some (push "err" s, rest)
+  | .pcDone, "END" :: rest => some (push "err" { s with cur := .top }, rest)
+  | .pcDone, "ABANDON" :: rest => some (push "ok" { s with cur := .top }, rest)
+  | .pcDone, "P" :: k :: rest => do some (push "err" s, rest.drop (← k.toNat?))
+  | .pcDone, "OG" :: k :: rest =>
+    if k == "~" then some (push "ok" s, rest) else do some (push "ok" s, rest.drop (← k.toNat?))
+  | .pcDone, "TR" :: k :: rest => if k == "~" then some (push "ok" s, rest) else some (push "ok" s, rest.drop 6)
+  | .pcDone, "ILN" :: rest => some (push "ok" s, rest)
+  | .pcDone, "CLN" :: rest => some (push "ok" s, rest)
+  | .pcDone, "IL" :: rest => some (push "ok" s, rest.drop 2)
+  | .pcDone, "CL" :: rest => some (push "ok" s, rest.drop 6)
+  | .pcDone, _ :: _ :: rest => some (push "ok" s, rest)
   -- ---------- point cloud writer
+  | .pc w, "PFIN" :: rest =>
+    match w.finalize s.e.pw with
+    | .ok (pw, _, pc) => some (push "ok" { s with e := { s.e with pw := pw, pcs := s.e.pcs ++ [pc] }, cur := .pcDone }, rest)
+    | .err _ => some (push "err" s, rest)
+    | .panic _ => some ({ push "panic" s with stop := true }, rest)
   | .pc w, "P" :: k :: rest => do
     let k ← k.toNat?
     let vals ← (rest.take k).mapM parseValue
